@@ -60,17 +60,17 @@ def sdo_jobs(h, quick):
         return [J(h, 0, defs=SC3, depth=60, deadline=150, opts=CLOSE),                      # closed state space, scaled buffer
                 J(h, 1, defs=SC3, depth=60, deadline=150, opts=CLOSE),                      # ... in OPERATIONAL
                 J(h, 0, defs=SC3, depth=2, deadline=100),                                   # fine state identity, full alphabet
-                J(h, 0, defs=SC3, depth=3, deadline=100, opts={"small": 1, "fewinit": 1}),  # fine state identity, reduced alphabet
+                J(h, 0, defs=SC3, depth=3, deadline=100, opts={"small": 1, "fewinit": 1, "csdo": 1}),  # fine state identity, reduced alphabet + writes to the SDO client COB-IDs 1280h
                 J(h, 0, defs=REAL1K, depth=3, deadline=100, opts={"small": 1, "fewinit": 1, "coarse": 1}),   # real 127-segment buffer
-                J(h, 0, defs=TWO3, depth=4, deadline=100, opts=CLOSE),                      # two servers interleaved
+                J(h, 0, defs=TWO3, depth=4, deadline=100, opts=dict(CLOSE, csdo=1)),         # two servers interleaved (+ 1280h writes)
                 J(h, 0, defs=SC3, depth=5, deadline=100, opts=RESIDUE)]                     # leftovers of finished transfers kept in the state identity
     return [J(h, 0, defs=SC3, depth=60, deadline=1500, opts={"coarse": 1}, max_states=20000000),
             J(h, 1, defs=SC3, depth=60, deadline=1500, opts=CLOSE),
             J(h, 0, defs=SC3, depth=3, deadline=1200, max_states=20000000),
-            J(h, 0, defs=SC3, depth=5, deadline=1200, opts={"small": 1, "fewinit": 1}, max_states=20000000),
+            J(h, 0, defs=SC3, depth=5, deadline=1200, opts={"small": 1, "fewinit": 1, "csdo": 1}, max_states=20000000),
             J(h, 0, defs=REAL1K, depth=5, deadline=1200, opts={"small": 1, "fewinit": 1, "coarse": 1}, max_states=20000000),
             J(h, 0, defs=REAL1K, depth=3, deadline=1200, opts={"small": 1}, max_states=20000000),
-            J(h, 0, defs=TWO3, depth=6, deadline=1200, opts=CLOSE, max_states=20000000),
+            J(h, 0, defs=TWO3, depth=6, deadline=1200, opts=dict(CLOSE, csdo=1), max_states=20000000),
             J(h, 0, defs=SC3, depth=8, deadline=900, opts=RESIDUE, max_states=20000000)]
 
 PROPS["C04"] = {
@@ -254,8 +254,8 @@ PROPS["C17"] = {
     "note": "sub-index 1 means 'all groups' (placeholder CO_PARA) when there are >= 2 groups, as the repository's own unit test builds it; a request addressing a disabled group may be confirmed or aborted; the content of a group whose own driver call was short is adopted from the implementation; NMT reset node reloads the node groups AND the communication groups (co_nmt.h: 'reset application (and communication)'; CiA 301 passes from reset application through reset communication; C20 equates it with a fresh start, which loads every group); on NMT reset communication the node groups may be reloaded or left alone",
     "rule": "a case is a tuple (layout, request history, restart point, fault positions and kinds) executed from a restored snapshot; non-trivial = at least one NVM driver call or SDO answer happened; distinct = distinct hashes of verdicts, driver-call log and final images",
     "jobs": {
-        "quick":    [J("c17", c) for c in range(13)],
-        "thorough": [J("c17", c, deadline=900) for c in range(13)],
+        "quick":    [J("c17", c) for c in range(13)] + [J("c17", c, opts={"xfer": x}) for c in (1, 4, 7) for x in (1, 2)],
+        "thorough": [J("c17", c, deadline=900) for c in range(13)] + [J("c17", c, deadline=900, opts={"xfer": x}) for c in range(13) for x in (1, 2)],
     },
     "bounds": {"quick": "histories of length 3, every restart point, 1 fault at every NVM call (short by 1 / 0 bytes)",
                "thorough": "histories of length 4 with 1 fault + histories of length 3 with 2 faults"},
